@@ -545,6 +545,105 @@ def inline_local_procedures(fnode):
     return total
 
 
+def param_deps(fnode):
+    """Flow-sensitive dependency analysis of a function without nested
+    control transfer surprises: for every `return`, the set of PARAMETERS
+    each returned element may depend on (through assignments, augmented
+    assignments, branches are joined, loops iterated to a fixpoint;
+    control dependence on branch tests is included).
+    Returns [(return node, [set(param names) per element])]."""
+    params = [a.arg for a in fnode.args.posonlyargs + fnode.args.args +
+              fnode.args.kwonlyargs]
+    out = []
+
+    def deps(e, env):
+        d = set()
+        for x in ast.walk(e):
+            if isinstance(x, ast.Name) and isinstance(x.ctx, ast.Load):
+                d |= env.get(x.id, set())
+        return d
+
+    def assign(t, d, env, aug=False):
+        if isinstance(t, ast.Name):
+            env[t.id] = (env.get(t.id, set()) | d) if aug else set(d)
+        elif isinstance(t, (ast.Tuple, ast.List)):
+            for el in t.elts:
+                assign(el, d, env, aug)
+        elif isinstance(t, ast.Starred):
+            assign(t.value, d, env, aug)
+        elif isinstance(t, (ast.Subscript, ast.Attribute)):
+            b = t
+            while isinstance(b, (ast.Subscript, ast.Attribute)):
+                b = b.value
+            if isinstance(b, ast.Name):
+                env[b.id] = env.get(b.id, set()) | d | deps(t, env)
+
+    def join(a, b):
+        return {k: a.get(k, set()) | b.get(k, set())
+                for k in set(a) | set(b)}
+
+    def block(stmts, env, ctl):
+        for st in stmts:
+            if isinstance(st, ast.Assign):
+                d = deps(st.value, env) | ctl
+                if isinstance(st.value, (ast.Tuple, ast.List)) and \
+                        len(st.targets) == 1 and \
+                        isinstance(st.targets[0], (ast.Tuple, ast.List)) and \
+                        len(st.targets[0].elts) == len(st.value.elts):
+                    ds = [deps(v, env) | ctl for v in st.value.elts]
+                    for t_, d_ in zip(st.targets[0].elts, ds):
+                        assign(t_, d_, env)
+                else:
+                    for t in st.targets:
+                        assign(t, d, env)
+            elif isinstance(st, ast.AugAssign):
+                assign(st.target, deps(st.value, env) | ctl, env, aug=True)
+            elif isinstance(st, ast.AnnAssign) and st.value is not None:
+                assign(st.target, deps(st.value, env) | ctl, env)
+            elif isinstance(st, ast.Return):
+                v = st.value
+                if isinstance(v, ast.Tuple):
+                    out.append((st, [deps(e, env) | ctl for e in v.elts]))
+                elif v is not None:
+                    out.append((st, [deps(v, env) | ctl]))
+            elif isinstance(st, ast.If):
+                c2 = ctl | deps(st.test, env)
+                e1, e2 = dict(env), dict(env)
+                block(st.body, e1, c2)
+                block(st.orelse, e2, c2)
+                env.clear()
+                env.update(join(e1, e2))
+            elif isinstance(st, (ast.For, ast.While)):
+                c2 = ctl | (deps(st.iter, env) if isinstance(st, ast.For)
+                            else deps(st.test, env))
+                for _ in range(3):
+                    e1 = dict(env)
+                    if isinstance(st, ast.For):
+                        assign(st.target, c2, e1)
+                    block(st.body, e1, c2)
+                    nv = join(env, e1)
+                    if nv == env:
+                        break
+                    env.clear()
+                    env.update(nv)
+                block(st.orelse, env, ctl)
+            elif isinstance(st, ast.With):
+                for it_ in st.items:
+                    if it_.optional_vars is not None:
+                        assign(it_.optional_vars,
+                               deps(it_.context_expr, env) | ctl, env)
+                block(st.body, env, ctl)
+            elif isinstance(st, ast.Try):
+                block(st.body, env, ctl)
+                for h in st.handlers:
+                    block(h.body, env, ctl)
+                block(st.orelse, env, ctl)
+                block(st.finalbody, env, ctl)
+    env0 = {p_: {p_} for p_ in params}
+    block(fnode.body, env0, set())
+    return out
+
+
 def as_update(stmt):
     """(target text, operator class, operand text) of  t op= v  or of the
     equivalent  t = t op v  (also  t = v op t  for + and *); else None"""
